@@ -134,6 +134,11 @@ CHECKS = {
     text='One inductive step of the multi-client selector from every pre-state (nobody / client k holds, reached by a real granted-claim history) x every operation (claim with symbolic reply, release, other in-event, by every client), executed on the generated InitializePort lambdas and the generated MultiClientSelector/MutexWrapped code; afterwards every component out-event must reach exactly the holder. Known finding: release by a non-holder clears the selection.',
     note='Trusted base: clang-14 typed AST, the ShellSem abstract machine (vf/shellsem) with library/runtime intrinsics, the mock Dezyne runtime and mock model header; the machine is validated against the g++-compiled program on sampled programs every run and every finding is replayed on the compiled program. Quantifier over models = the 168-program family (vf/family.py); generated headers get #pragma once in the scratch copy.',
     technique='symbolic execution of the generated C++ (ShellSem), inductive step over selector states with symbolic claim reply, g++ replay'),
+ 'C11': dict(
+    cat='model_checking', ref='DESIGN.md §2.3 (threads), §3 C11', engine='E3-shellsem-threads',
+    text='Threaded ShellSem: the clang AST of the generated claim/release lambdas, out-event rerouting, MultiClientSelector and MutexWrapped is executed by the abstract machine with one thread per client (claim/use/release cycles) and an environment thread raising component out-events on the dispatcher; thread switches at std::mutex::lock, dispatcher entry, log sink and external handlers; every schedule within the preemption bound is executed (stateless search, choices decided through the z3-backed path oracle). Per schedule: lock discipline of the selector state (data-race freedom), no deadlock, no dispatcher wait under the mutex, a granted client receives the out-events until it starts its own release. MutexWrapped protocol (exclusion, reset, scope exit) from its own AST. Known finding: a pending Deselect of the previous holder clears the new holder.',
+    note='Bounds: 2 client threads + environment, quick: 1 cycle, 1 out-event, <= 2 preemptions (827 schedules per program); thorough: <= 3 preemptions, 2 cycles, 2 out-events. Dispatcher modelled as a token (closures serialised, run inline on the calling thread); sequentially consistent memory; the real Dezyne pump is outside the claim. Sampled schedules are re-executed on the g++-compiled program with gated real threads (same observable events required); findings are replayed there under the same schedule, races under ThreadSanitizer free runs; TSan free runs of every program must be silent.',
+    technique='bounded schedule exploration of the generated C++ (clang AST -> threaded ShellSem abstract machine, z3-backed decisions), lockset check, gated-thread g++ replay + ThreadSanitizer'),
  'C09': dict(
     cat='translation_validation', ref='DESIGN.md §2.3, §3 C09', engine='E3-shellsem',
     text='Constructor, FacilitiesCheck and Locator() executed with the presence of dispatcher/runtime/other service in the user locator as symbolic Booleans: throws exactly for the forbidden combinations (z3 validity per path), otherwise identities of dispatcher/runtime/locator and contents of both locators checked on the object graph; member initialisation order from clang.',
@@ -148,7 +153,6 @@ CHECKS = {
 
 NOT_APPLICABLE = {
  'C06': 'acceptance of generated C++ by a compiler (stand-alone, double include, ODR, declared=defined) is a compiler verdict, not an SMT question within reach; see DESIGN.md §3 C06 (observations made while building E3 are listed there)',
- 'C11': 'thread interleavings of the generated C++ (std::mutex/unique_lock, several client threads + dispatcher) are not reachable by any engine present: ShellSem executes one thread of control; a hand-written schedule model would not be the real code; see DESIGN.md §3 C11',
 }
 PENDING = 'check not built yet in this revision (planned, see DESIGN.md); not claimed until it runs'
 
